@@ -15,6 +15,27 @@ def capsCmd (args : List String) : String :=
       | .ok c => s!"found {strTok c.ns} {listTok (c.params.map fun (k, v) => strTok k ++ "=" ++ strTok v)} {tail}"
       | .error _ => s!"keyerror {tail}"
     | _, _ => "bad-args"
+  | "hist" :: urisT :: opsT =>
+    -- `caps hist <uris> (a <uri> | r <uri> | g <key> | k)…` → one result per `g` / `k`, separated by `;`
+    match tokStrList urisT with
+    | none => "bad-args"
+    | some uris =>
+      let rec go (fuel : Nat) (d : Caps.Caps) (toks : List String) (acc : List String) : Option (List String) :=
+        match fuel, toks with
+        | _, [] => some acc.reverse
+        | 0, _ => none
+        | fuel + 1, "a" :: u :: rest => (tokStr u).bind fun u => go fuel (Caps.add d u) rest acc
+        | fuel + 1, "r" :: u :: rest => (tokStr u).bind fun u => go fuel (Caps.remove d u) rest acc
+        | fuel + 1, "g" :: k :: rest => (tokStr k).bind fun k =>
+            let out := match Caps.getItem d k with
+              | .ok c => s!"found {strTok c.ns} {listTok (c.params.map fun (k, v) => strTok k ++ "=" ++ strTok v)}"
+              | .error _ => "keyerror"
+            go fuel d rest (out :: acc)
+        | fuel + 1, "k" :: rest => go fuel d rest (s!"keys {listTok ((Caps.keys d).map strTok)}" :: acc)
+        | _, _ => none
+      match go 100000 (Caps.mk uris) opsT [] with
+      | some outs => String.intercalate " ; " outs
+      | none => "bad-args"
   | ["abbrev", uriT] =>
     match tokStr uriT with
     | some u => listTok ((Caps.abbreviate u).map strTok)
